@@ -107,3 +107,180 @@ contract(G + 'MetaGrid._tiles_pattern', props=['C04'],
                         and yielded[m][1][1] == (m // grid_size[0]) * self.grid.tile_size[1] + buffers[3]))"""]),
          },
          must_fail='len(result) == 1')
+
+# ---- meta tile bbox, buffer truncation, size --------------------------------------------------------------------
+contract(G + 'MetaGrid.unbuffered_meta_bbox', props=['C04'],
+         types=dict(tile_coord='tuple[int,int,int]'), returns='tuple[real,real,real,real]',
+         requires=['meta_wf(self)', 'valid_level(self.grid, tile_coord[2])'],
+         ensures=[
+             'abs(result[0] - tb_x0(self.grid, tile_coord[0], tile_coord[2])) <= 2e-12',
+             'abs(result[2] - tb_x1(self.grid, tile_coord[0] + msize(self, tile_coord[2], 0) - 1, tile_coord[2])) <= 2e-12',
+             """abs(result[1] - min(tb_y0(self.grid, tile_coord[1], tile_coord[2]),
+                                    tb_y0(self.grid, tile_coord[1] + msize(self, tile_coord[2], 1) - 1, tile_coord[2]))) <= 2e-12""",
+             """abs(result[3] - max(tb_y1(self.grid, tile_coord[1], tile_coord[2]),
+                                    tb_y1(self.grid, tile_coord[1] + msize(self, tile_coord[2], 1) - 1, tile_coord[2]))) <= 2e-12""",
+         ],
+         must_fail='result[0] == result[2]')
+
+# pixels of buffer kept on one side: the configured buffer, minus what the grid border cut off (in whole pixels,
+# int(round(delta / res, 5)) -> within one pixel of the ground distance actually kept)
+ghost('buf_ok', ['mb', 'res', 'kept_ground', 'buf', 'truncated'], """
+    (buf == mb if not truncated else True)
+    and buf * res - kept_ground <= res * 1.00001 and kept_ground - buf * res <= res * 0.00001 + 0""")
+
+contract(G + 'MetaGrid._buffered_bbox', props=['C04'],
+         types=dict(bbox='tuple[real,real,real,real]', level='int', limit_to_grid_bbox='bool'),
+         returns='tuple[tuple[real,real,real,real],tuple[int,int,int,int]]',
+         requires=['meta_wf(self)', 'valid_level(self.grid, level)'],
+         ensures=[
+             'implies(self.meta_buffer == 0, result[0] == bbox and result[1] == (0, 0, 0, 0))',
+             # no truncation requested or needed: the full buffer on that side, exactly
+             """implies(self.meta_buffer > 0 and (not limit_to_grid_bbox or self.grid.bbox[0] <= bbox[0] - self.meta_buffer * self.grid.resolutions[level]),
+                        result[0][0] == bbox[0] - self.meta_buffer * self.grid.resolutions[level] and result[1][0] == self.meta_buffer)""",
+             """implies(self.meta_buffer > 0 and (not limit_to_grid_bbox or self.grid.bbox[1] <= bbox[1] - self.meta_buffer * self.grid.resolutions[level]),
+                        result[0][1] == bbox[1] - self.meta_buffer * self.grid.resolutions[level] and result[1][1] == self.meta_buffer)""",
+             """implies(self.meta_buffer > 0 and (not limit_to_grid_bbox or self.grid.bbox[2] >= bbox[2] + self.meta_buffer * self.grid.resolutions[level]),
+                        result[0][2] == bbox[2] + self.meta_buffer * self.grid.resolutions[level] and result[1][2] == self.meta_buffer)""",
+             """implies(self.meta_buffer > 0 and (not limit_to_grid_bbox or self.grid.bbox[3] >= bbox[3] + self.meta_buffer * self.grid.resolutions[level]),
+                        result[0][3] == bbox[3] + self.meta_buffer * self.grid.resolutions[level] and result[1][3] == self.meta_buffer)""",
+             # truncated at the grid border: the bbox side is the grid side, the pixel buffer is within one pixel
+             # of the ground buffer that is left
+             """implies(self.meta_buffer > 0 and limit_to_grid_bbox and self.grid.bbox[0] > bbox[0] - self.meta_buffer * self.grid.resolutions[level],
+                        result[0][0] == self.grid.bbox[0]
+                        and result[1][0] * self.grid.resolutions[level] - (bbox[0] - self.grid.bbox[0]) <= self.grid.resolutions[level] * 1.00001
+                        and (bbox[0] - self.grid.bbox[0]) - result[1][0] * self.grid.resolutions[level] <= self.grid.resolutions[level] * 0.00001)""",
+             """implies(self.meta_buffer > 0 and limit_to_grid_bbox and self.grid.bbox[1] > bbox[1] - self.meta_buffer * self.grid.resolutions[level],
+                        result[0][1] == self.grid.bbox[1]
+                        and result[1][1] * self.grid.resolutions[level] - (bbox[1] - self.grid.bbox[1]) <= self.grid.resolutions[level] * 1.00001
+                        and (bbox[1] - self.grid.bbox[1]) - result[1][1] * self.grid.resolutions[level] <= self.grid.resolutions[level] * 0.00001)""",
+             """implies(self.meta_buffer > 0 and limit_to_grid_bbox and self.grid.bbox[2] < bbox[2] + self.meta_buffer * self.grid.resolutions[level],
+                        result[0][2] == self.grid.bbox[2]
+                        and result[1][2] * self.grid.resolutions[level] - (self.grid.bbox[2] - bbox[2]) <= self.grid.resolutions[level] * 1.00001
+                        and (self.grid.bbox[2] - bbox[2]) - result[1][2] * self.grid.resolutions[level] <= self.grid.resolutions[level] * 0.00001)""",
+             """implies(self.meta_buffer > 0 and limit_to_grid_bbox and self.grid.bbox[3] < bbox[3] + self.meta_buffer * self.grid.resolutions[level],
+                        result[0][3] == self.grid.bbox[3]
+                        and result[1][3] * self.grid.resolutions[level] - (self.grid.bbox[3] - bbox[3]) <= self.grid.resolutions[level] * 1.00001
+                        and (self.grid.bbox[3] - bbox[3]) - result[1][3] * self.grid.resolutions[level] <= self.grid.resolutions[level] * 0.00001)""",
+         ],
+         must_fail='result[1][0] == self.meta_buffer')
+
+contract(G + 'MetaGrid._size_from_buffered_bbox', props=['C04'],
+         types=dict(bbox='tuple[real,real,real,real]', level='int'), returns='tuple[int,int]',
+         requires=['meta_wf(self)', 'valid_level(self.grid, level)'],
+         ensures=['abs(result[0] - (bbox[2] - bbox[0]) / self.grid.resolutions[level]) <= 0.5',
+                  'abs(result[1] - (bbox[3] - bbox[1]) / self.grid.resolutions[level]) <= 0.5'],
+         must_fail='result[0] == 0')
+
+# bbox of the meta tile whose main tile is `tile_coord` (the branch meta_tile() uses), sides as exact oracles:
+#   side not cut off by the grid border: unbuffered edge -/+ buffer, pixel buffer = configured buffer
+#   side cut off: the grid edge, and the pixel buffer is within one pixel of the ground distance that is left
+ghost('ub_x0', ['mg', 't'], "tb_x0(mg.grid, t[0], t[2])")
+ghost('ub_x1', ['mg', 't'], "tb_x1(mg.grid, t[0] + msize(mg, t[2], 0) - 1, t[2])")
+ghost('ub_y0', ['mg', 't'], "min(tb_y0(mg.grid, t[1], t[2]), tb_y0(mg.grid, t[1] + msize(mg, t[2], 1) - 1, t[2]))")
+ghost('ub_y1', ['mg', 't'], "max(tb_y1(mg.grid, t[1], t[2]), tb_y1(mg.grid, t[1] + msize(mg, t[2], 1) - 1, t[2]))")
+ghost('mbuf', ['mg', 't'], "mg.meta_buffer * mg.grid.resolutions[t[2]]")
+
+contract(G + 'MetaGrid._meta_bbox', props=['C04'],
+         types=dict(tile_coord='tuple[int,int,int]', tiles='none', limit_to_bbox='bool'),
+         returns='tuple[tuple[real,real,real,real],tuple[int,int,int,int]]',
+         requires=['meta_wf(self)', 'valid_level(self.grid, tile_coord[2])', 'limit_to_bbox'],
+         ensures=[
+             # left
+             """implies(self.meta_buffer == 0 or self.grid.bbox[0] <= ub_x0(self, tile_coord) - mbuf(self, tile_coord) - 4e-12,
+                        abs(result[0][0] - (ub_x0(self, tile_coord) - mbuf(self, tile_coord))) <= 2e-12 and result[1][0] == self.meta_buffer)""",
+             """implies(self.meta_buffer > 0 and self.grid.bbox[0] > ub_x0(self, tile_coord) - mbuf(self, tile_coord) + 4e-12,
+                        result[0][0] == self.grid.bbox[0])""",
+             """result[1][0] * self.grid.resolutions[tile_coord[2]] - (ub_x0(self, tile_coord) - result[0][0]) <= self.grid.resolutions[tile_coord[2]] * 1.00001 + 4e-12
+                and (ub_x0(self, tile_coord) - result[0][0]) - result[1][0] * self.grid.resolutions[tile_coord[2]] <= self.grid.resolutions[tile_coord[2]] * 0.00001 + 4e-12""",
+             # top
+             """implies(self.meta_buffer == 0 or self.grid.bbox[3] >= ub_y1(self, tile_coord) + mbuf(self, tile_coord) + 4e-12,
+                        abs(result[0][3] - (ub_y1(self, tile_coord) + mbuf(self, tile_coord))) <= 2e-12 and result[1][3] == self.meta_buffer)""",
+             """implies(self.meta_buffer > 0 and self.grid.bbox[3] < ub_y1(self, tile_coord) + mbuf(self, tile_coord) - 4e-12,
+                        result[0][3] == self.grid.bbox[3])""",
+             """result[1][3] * self.grid.resolutions[tile_coord[2]] - (result[0][3] - ub_y1(self, tile_coord)) <= self.grid.resolutions[tile_coord[2]] * 1.00001 + 4e-12
+                and (result[0][3] - ub_y1(self, tile_coord)) - result[1][3] * self.grid.resolutions[tile_coord[2]] <= self.grid.resolutions[tile_coord[2]] * 0.00001 + 4e-12""",
+             # right / bottom
+             """implies(self.meta_buffer == 0 or self.grid.bbox[2] >= ub_x1(self, tile_coord) + mbuf(self, tile_coord) + 4e-12,
+                        abs(result[0][2] - (ub_x1(self, tile_coord) + mbuf(self, tile_coord))) <= 2e-12 and result[1][2] == self.meta_buffer)""",
+             """implies(self.meta_buffer == 0 or self.grid.bbox[1] <= ub_y0(self, tile_coord) - mbuf(self, tile_coord) - 4e-12,
+                        abs(result[0][1] - (ub_y0(self, tile_coord) - mbuf(self, tile_coord))) <= 2e-12 and result[1][1] == self.meta_buffer)""",
+             'implies(self.meta_buffer > 0 and self.grid.bbox[2] < ub_x1(self, tile_coord) + mbuf(self, tile_coord) - 4e-12, result[0][2] == self.grid.bbox[2])',
+             'implies(self.meta_buffer > 0 and self.grid.bbox[1] > ub_y0(self, tile_coord) - mbuf(self, tile_coord) + 4e-12, result[0][1] == self.grid.bbox[1])',
+         ],
+         must_fail='result[1][0] == self.meta_buffer')
+
+# the property's core obligation: every crop offset of the pattern is the tile's own position inside the meta
+# image -- exactly (1e-11 = accumulated round(.,12) noise) when the buffer on that side is not cut off by the
+# grid border, within one pixel when it is.
+ghost('mt_row', ['mg', 'm', 'z'], "m // msize(mg, z, 0)")
+ghost('mt_col', ['mg', 'm', 'z'], "m % msize(mg, z, 0)")
+
+contract(G + 'MetaGrid.meta_tile', props=['C04', 'C08'],
+         types=dict(tile_coord='tuple[int,int,int]'), returns='obj:mapproxy.grid:MetaTile',
+         requires=['meta_wf(self)', 'valid_level(self.grid, tile_coord[2])'],
+         inline=['MetaTile.__init__'], split=['self.grid.flipped_y_axis'],
+         ensures=[
+             'result.grid_size == (msize(self, tile_coord[2], 0), msize(self, tile_coord[2], 1))',
+             'len(result.tile_patterns) == msize(self, tile_coord[2], 0) * msize(self, tile_coord[2], 1)',
+             # which tiles: the block starting at the main tile, row by row from the top, None outside the grid
+             """forall(lambda m: implies(0 <= m < len(result.tile_patterns), result.tile_patterns[m][0] ==
+                    mt_elem(self, main_x(self, tile_coord), main_y(self, tile_coord), msize(self, tile_coord[2], 0),
+                            msize(self, tile_coord[2], 1), tile_coord[2], m)))""",
+             # placement, split as "Guidance: split hard obligations into lemmas":
+             #  (P1) the crop offsets are a regular lattice: offset(m) = (col * tile width + B0, row * tile height + B3)
+             #       where (B0, B3) is the offset of entry 0 (the kept left / top buffer in pixels)
+             """forall(lambda m: implies(0 <= m < len(result.tile_patterns),
+                    result.tile_patterns[m][1][0] == mt_col(self, m, tile_coord[2]) * self.grid.tile_size[0] + result.tile_patterns[0][1][0]
+                    and result.tile_patterns[m][1][1] == mt_row(self, m, tile_coord[2]) * self.grid.tile_size[1] + result.tile_patterns[0][1][1]))""",
+             #  (P2) entry 0 (top-left tile of the block) sits at its own ground position inside the meta image:
+             #       within one pixel in general, exactly (1e-11 = round(.,12) noise) when that buffer is not cut off
+             """abs((result.bbox[0] + result.tile_patterns[0][1][0] * self.grid.resolutions[tile_coord[2]])
+                    - tb_x0(self.grid, main_x(self, tile_coord), tile_coord[2])) <= self.grid.resolutions[tile_coord[2]] * 1.00002 + 1e-11""",
+             """implies(self.meta_buffer == 0 or self.grid.bbox[0] <= tb_x0(self.grid, main_x(self, tile_coord), tile_coord[2])
+                         - self.meta_buffer * self.grid.resolutions[tile_coord[2]] - 1e-11,
+                    abs((result.bbox[0] + result.tile_patterns[0][1][0] * self.grid.resolutions[tile_coord[2]])
+                        - tb_x0(self.grid, main_x(self, tile_coord), tile_coord[2])) <= 1e-11)""",
+             """abs((result.bbox[3] - result.tile_patterns[0][1][1] * self.grid.resolutions[tile_coord[2]])
+                    - tb_y1(self.grid, mt_y(self, main_y(self, tile_coord), msize(self, tile_coord[2], 1), 0), tile_coord[2]))
+                <= self.grid.resolutions[tile_coord[2]] * 1.00002 + 1e-11""",
+             """implies(self.meta_buffer == 0 or self.grid.bbox[3] >= tb_y1(self.grid, mt_y(self, main_y(self, tile_coord), msize(self, tile_coord[2], 1), 0), tile_coord[2])
+                         + self.meta_buffer * self.grid.resolutions[tile_coord[2]] + 1e-11,
+                    abs((result.bbox[3] - result.tile_patterns[0][1][1] * self.grid.resolutions[tile_coord[2]])
+                        - tb_y1(self.grid, mt_y(self, main_y(self, tile_coord), msize(self, tile_coord[2], 1), 0), tile_coord[2])) <= 1e-11)""",
+             #  (P1) + (P2) + lemma `pattern_placement_x/y`  =>  EVERY entry m sits at its tile's ground position
+             # image size is the bbox extent in pixels
+             'abs(result.size[0] - (result.bbox[2] - result.bbox[0]) / self.grid.resolutions[tile_coord[2]]) <= 0.5',
+             'abs(result.size[1] - (result.bbox[3] - result.bbox[1]) / self.grid.resolutions[tile_coord[2]]) <= 0.5',
+         ],
+         must_fail='len(result.tile_patterns) == 1')
+
+
+# (P1) + (P2) => placement of every entry: pure arithmetic, proved once
+lemma('pattern_placement_x', ['C04'],
+      doc='|bb0 + B0*res - (b0 + X*res*tw)| <= tol  and  cx == c*tw + B0  =>  |bb0 + cx*res - (b0 + (X+c)*res*tw)| <= tol',
+      fn=lambda z3: (lambda bb0, b0, res, tol, B0, X, c, tw, cx: (
+          [res > 0, tw >= 1, cx == c * tw + B0,
+           bb0 + z3.ToReal(B0) * res - (b0 + z3.ToReal(X) * res * z3.ToReal(tw)) <= tol,
+           (b0 + z3.ToReal(X) * res * z3.ToReal(tw)) - (bb0 + z3.ToReal(B0) * res) <= tol],
+          z3.And(bb0 + z3.ToReal(cx) * res - (b0 + z3.ToReal(X + c) * res * z3.ToReal(tw)) <= tol,
+                 (b0 + z3.ToReal(X + c) * res * z3.ToReal(tw)) - (bb0 + z3.ToReal(cx) * res) <= tol)))(
+          z3.Real('bb0'), z3.Real('b0'), z3.Real('res'), z3.Real('tol'), z3.Int('B0'), z3.Int('X'), z3.Int('c'),
+          z3.Int('tw'), z3.Int('cx')))
+lemma('pattern_placement_y', ['C04'],
+      doc='top edges: |bb3 - B3*res - top| <= tol and cy == r*th + B3  =>  |bb3 - cy*res - (top - r*th*res)| <= tol '
+          '(top - r*th*res is the top edge of row r in both numbering conventions)',
+      fn=lambda z3: (lambda bb3, top, res, tol, B3, r, th, cy: (
+          [res > 0, th >= 1, cy == r * th + B3,
+           bb3 - z3.ToReal(B3) * res - top <= tol, top - (bb3 - z3.ToReal(B3) * res) <= tol],
+          z3.And(bb3 - z3.ToReal(cy) * res - (top - z3.ToReal(r) * z3.ToReal(th) * res) <= tol,
+                 (top - z3.ToReal(r) * z3.ToReal(th) * res) - (bb3 - z3.ToReal(cy) * res) <= tol)))(
+          z3.Real('bb3'), z3.Real('top'), z3.Real('res'), z3.Real('tol'), z3.Int('B3'), z3.Int('r'), z3.Int('th'),
+          z3.Int('cy')))
+lemma('row_top_edge', ['C04'],
+      doc='tb_y1 of row r of a block whose top row is y_top: ul numbering y_top + r, ll numbering y_top - r; both are '
+          'top(y_top) - r*th*res',
+      fn=lambda z3: (lambda b1, b3, res, th, yt, r: (
+          [res > 0, th >= 1],
+          z3.And((b3 - z3.ToReal(yt + r) * res * z3.ToReal(th)) == (b3 - z3.ToReal(yt) * res * z3.ToReal(th)) - z3.ToReal(r) * z3.ToReal(th) * res,
+                 (b1 + z3.ToReal(yt - r + 1) * res * z3.ToReal(th)) == (b1 + z3.ToReal(yt + 1) * res * z3.ToReal(th)) - z3.ToReal(r) * z3.ToReal(th) * res)))(
+          z3.Real('b1'), z3.Real('b3'), z3.Real('res'), z3.Int('th'), z3.Int('yt'), z3.Int('r')))
